@@ -62,6 +62,7 @@ type observed struct {
 // ---- fakes (the recording Providers) -------------------------------------------------------
 
 type world struct {
+	long    bool // a server or player name of (about) 32 KiB or more
 	st      ref.State
 	servers []*fServer
 	players []*fPlayer
@@ -235,22 +236,66 @@ var (
 	unknownName = []string{"nobody", "ghost_7", "", "x", "ALLx", "lobby2"}
 )
 
+// String fields travel as java.io.DataOutput.writeUTF: an UNSIGNED 16-bit byte length followed
+// by the bytes. The lengths around the signed/unsigned boundary and around the maximum are
+// generated on purpose: 32767 is the last length a signed short can hold, 65535 the longest
+// string there is.
+var boundaryLens = []int{32766, 32767, 32768, 32769, 65534, 65535}
+
+func longLen(rng *rand.Rand) int {
+	switch k := rng.Intn(10); {
+	case k < 6:
+		return boundaryLens[rng.Intn(len(boundaryLens))]
+	case k < 9:
+		return 32768 + rng.Intn(32768)
+	default:
+		return 30000 + rng.Intn(2768)
+	}
+}
+
+// padTo extends s with filler characters to exactly n bytes (n >= len(s)).
+func padTo(s string, n int, fill byte) string {
+	if len(s) >= n {
+		return s
+	}
+	return s + strings.Repeat(string(rune(fill)), n-len(s))
+}
+
 func genWorld(rng *rand.Rand) *world {
 	w := &world{obs: &observed{}}
 	nS := rng.Intn(5)
 	nP := 1 + rng.Intn(7) // the requester plus 0-6 others
-	for _, i := range rng.Perm(len(serverPool))[:nS] {
+	// 1 state in 10 has a server and/or a player whose name is a long string
+	longServer, longPlayer := -1, -1
+	if rng.Intn(10) == 0 {
+		if nS > 0 && rng.Intn(3) != 0 {
+			longServer = rng.Intn(nS)
+		}
+		if longServer < 0 || rng.Intn(3) == 0 {
+			longPlayer = rng.Intn(nP)
+		}
+		w.long = true
+	}
+	for k, i := range rng.Perm(len(serverPool))[:nS] {
 		host := fmt.Sprintf("10.%d.%d.%d", rng.Intn(256), rng.Intn(256), 1+rng.Intn(254))
 		port := []int{25565, 25566, 1 + rng.Intn(65535), 32768 + rng.Intn(32768)}[rng.Intn(4)]
-		w.servers = append(w.servers, &fServer{w: w, name: serverPool[i], addr: &net.TCPAddr{IP: net.ParseIP(host), Port: port}})
-		w.st.Servers = append(w.st.Servers, ref.Server{Name: serverPool[i], Host: host, Port: port})
+		name := serverPool[i]
+		if k == longServer {
+			name = padTo(name+"-", longLen(rng), 's')
+		}
+		w.servers = append(w.servers, &fServer{w: w, name: name, addr: &net.TCPAddr{IP: net.ParseIP(host), Port: port}})
+		w.st.Servers = append(w.st.Servers, ref.Server{Name: name, Host: host, Port: port})
 	}
 	for k, i := range rng.Perm(len(playerPool))[:nP] {
 		host := fmt.Sprintf("192.168.%d.%d", rng.Intn(256), 1+rng.Intn(254))
 		port := 1024 + rng.Intn(64512)
 		var id uuid.UUID
 		rng.Read(id[:])
-		p := &fPlayer{w: w, idx: k, name: playerPool[i], id: id, addr: &net.TCPAddr{IP: net.ParseIP(host), Port: port},
+		name := playerPool[i]
+		if k == longPlayer {
+			name = padTo(name+"_", longLen(rng), 'p')
+		}
+		p := &fPlayer{w: w, idx: k, name: name, id: id, addr: &net.TCPAddr{IP: net.ParseIP(host), Port: port},
 			protocol: proto.Protocol(protocols[rng.Intn(len(protocols))])}
 		rp := ref.Player{Name: p.name, UUID: [16]byte(id), Host: host, Port: port}
 		// current server: the requester (k==0) nearly always has one, others in 5 of 6 cases
@@ -290,8 +335,16 @@ func (g *gen) playerArg() string {
 	case k < 7 && len(g.w.servers) > 0:
 		return g.w.servers[g.rng.Intn(len(g.w.servers))].name // a server name where a player is expected
 	default:
-		return unknownName[g.rng.Intn(len(unknownName))]
+		return g.unknown()
 	}
+}
+
+// unknown returns a name nobody has; 1 in 8 is a long string.
+func (g *gen) unknown() string {
+	if g.rng.Intn(8) == 0 {
+		return padTo("nobody-", longLen(g.rng), 'n')
+	}
+	return unknownName[g.rng.Intn(len(unknownName))]
 }
 
 func (g *gen) serverArg(special bool) string {
@@ -312,12 +365,22 @@ func (g *gen) serverArg(special bool) string {
 	case k < 11:
 		return g.w.players[g.rng.Intn(len(g.w.players))].name // a player name where a server is expected
 	default:
-		return unknownName[g.rng.Intn(len(unknownName))]
+		return g.unknown()
 	}
 }
 
 func (g *gen) legacyText() string {
 	n := g.rng.Intn(1000)
+	switch k := g.rng.Intn(40); {
+	case k < 5: // a long text, at and around the length boundaries
+		pre := fmt.Sprintf("hello-%d-", n)
+		if k == 0 {
+			pre = "§c" + pre
+		}
+		return padTo(pre, longLen(g.rng), 'a'+byte(n%26))
+	case k == 5: // characters that modified UTF-8 encodes differently from UTF-8 (survival only)
+		return []string{"nul\x00inside", "emoji \U0001F600 here", "\U00010000"}[n%3]
+	}
 	switch g.rng.Intn(4) {
 	case 0:
 		return fmt.Sprintf("§aHi §lthere %d", n)
@@ -330,6 +393,10 @@ func (g *gen) legacyText() string {
 
 func (g *gen) jsonText() string {
 	n := g.rng.Intn(1000)
+	if g.rng.Intn(8) == 0 { // a long component: the whole JSON document has the boundary length
+		pre, post := fmt.Sprintf(`{"text":"hello-%d-`, n), `"}`
+		return padTo(pre, longLen(g.rng)-len(post), 'a'+byte(n%26)) + post
+	}
 	switch g.rng.Intn(6) {
 	case 0:
 		return fmt.Sprintf(`{"text":"a%d","extra":[{"text":"-b"},{"text":"-c"}]}`, n)
@@ -343,6 +410,9 @@ func (g *gen) jsonText() string {
 // forwardTail builds the part of a Forward/ForwardToPlayer request after the target.
 func (g *gen) forwardTail() []byte {
 	ch := []string{"MyChannel", "x", "", "plugin:sub", strings.Repeat("c", 70), "Ünï"}[g.rng.Intn(6)]
+	if g.rng.Intn(10) == 0 {
+		ch = padTo("Long:", longLen(g.rng), 'c') // a channel name is a writeUTF string like any other
+	}
 	body := make([]byte, []int{0, 1, 2, 7, 64, 300, g.rng.Intn(2000)}[g.rng.Intn(7)])
 	g.rng.Read(body)
 	b := ref.AppendUTF(nil, ch)
@@ -690,7 +760,7 @@ type witness struct {
 func TestC26(t *testing.T) {
 	r := lib.Start(t, "C26")
 	defer r.Finish()
-	r.Rule("each case = one generated proxy state (0-4 servers, requester + 0-6 other players, each on a server or none, backend connections on protocols 47/340/393/763/767) and one request on the BungeeCord channel: one of the 18 sub-channels (or an unknown one / another channel / empty) with arguments drawn from known (exact, other case, self, current server), unknown, empty, cross-kind (player name where a server is expected and vice versa), ALL/ONLINE; forward payloads well-formed, empty, with trailing bytes, negative declared length, declared length > remainder, missing; 1 in 8 requests cut at a random byte. distinct = (sub-channel, reference class of the arguments/payload, #servers, #players, requester connected, response channel generation)")
+	r.Rule("each case = one generated proxy state (0-4 servers, requester + 0-6 other players, each on a server or none, backend connections on protocols 47/340/393/763/767) and one request on the BungeeCord channel: one of the 18 sub-channels (or an unknown one / another channel / empty) with arguments drawn from known (exact, other case, self, current server), unknown, empty, cross-kind (player name where a server is expected and vice versa), ALL/ONLINE; forward payloads well-formed, empty, with trailing bytes, negative declared length, declared length > remainder, missing; 1 in 8 requests cut at a random byte. String lengths: 1 state in 10 has a server and/or player whose name is a long string, 1 text in 8, 1 forward channel name in 10 and 1 unknown name in 8 are long strings; long = 32766/32767/32768/32769/65534/65535 bytes (6 in 10), uniform in 32768..65535 (3 in 10) or in 30000..32767 (1 in 10); 1 legacy text in 40 contains U+0000 or a supplementary character (survival only). distinct = (sub-channel, reference class of the arguments/payload, #servers, #players, requester connected, response channel generation, string-length class)")
 	r.Assume("harness/ref/bungeeref is a from-memory transcription of BungeeCord's DownstreamBridge and Velocity's BungeeCordMessageResponder; where they disagree either behaviour is accepted (see coverage.adjudication)")
 	r.Assume("fake Providers look players and servers up case-insensitively like BungeeCord/Velocity; they additionally offer SendMessage on players and ConnectedServerOf(player) so that a repaired responder can reach a named player (unused on a tree that lacks them)")
 	r.Assume("component texts are flattened with go.minekube.com/common's plain codec; formatting is not compared")
@@ -703,6 +773,8 @@ func TestC26(t *testing.T) {
 	notCompared := map[string]int{}
 	altUsed := map[string]int{}
 	var nResp, nFwd, nConn, nKick, nMsg, nBcast, nPanic, nCompared int
+	longPerSub, nearPerSub, boundarySeen := map[string]int{}, map[string]int{}, map[string]int{}
+	var nLongState, nNonPortable, nLongCompared, nLongEffects int
 
 	for i := 0; i < n; i++ {
 		w := genWorld(rng)
@@ -710,7 +782,12 @@ func TestC26(t *testing.T) {
 		channel, data, _ := g.request()
 		exp := ref.Respond(w.st, w.self.name, channel, data)
 		if i%64 == 0 || r.Thorough() == false {
-			r.LogCase(map[string]any{"i": i, "state": w.st, "requester": w.self.name, "channel": channel, "data_hex": fmt.Sprintf("%x", data)})
+			if w.long || len(data) > 4096 {
+				// the case is reproducible from (seed, i); do not write 100 KiB per case
+				r.LogCase(map[string]any{"i": i, "long_strings": true, "requester": lib.Trunc(w.self.name, 80), "channel": channel, "data_len": len(data), "data_hex_head": fmt.Sprintf("%x", data[:min(len(data), 96)])})
+			} else {
+				r.LogCase(map[string]any{"i": i, "state": w.st, "requester": w.self.name, "channel": channel, "data_hex": fmt.Sprintf("%x", data)})
+			}
 		}
 
 		resp := bungeecord.NewMessageResponder(w.self, w)
@@ -746,7 +823,29 @@ func TestC26(t *testing.T) {
 		if connected {
 			gen = ref.ResponseChannel(int(w.self.conn.protocol))
 		}
-		r.Distinct(fmt.Sprintf("%s|%s|%d|%d|%v|%s", sub, exp.Class, len(w.servers), len(w.players), connected, gen))
+		// string-length class of the request (longest writeUTF field) and of the state
+		utfClass, sigSuffix := "", ""
+		switch {
+		case exp.MaxUTF >= 32768:
+			utfClass, sigSuffix = "|utf>=32768", ":utf-field-of-32768-bytes-or-more"
+			longPerSub[sub]++
+		case exp.MaxUTF >= 30000:
+			utfClass = "|utf-30000..32767"
+			nearPerSub[sub]++
+		}
+		for _, b := range boundaryLens {
+			if exp.MaxUTF == b {
+				boundarySeen[fmt.Sprint(b)]++
+			}
+		}
+		if w.long {
+			utfClass += "|long-name-in-state"
+			nLongState++
+		}
+		if exp.NonPortableUTF {
+			nNonPortable++
+		}
+		r.Distinct(fmt.Sprintf("%s|%s|%d|%d|%v|%s%s", sub, exp.Class, len(w.servers), len(w.players), connected, gen, utfClass))
 		nResp += len(obs.Responses)
 		nFwd += len(obs.Forwards)
 		nConn += len(obs.Connects)
@@ -766,7 +865,7 @@ func TestC26(t *testing.T) {
 			if (sub == "Message" || sub == "MessageRaw") && c == "panic-nil-deref" {
 				c = "panic-nil-deref-target-is-not-a-server"
 			}
-			r.Violation("bungee:"+sub+":"+c, "Process panicked: "+obs.Panic+" (in production the read loop recovers it: the request is dropped with an error log)", wit())
+			r.Violation("bungee:"+sub+":"+c+sigSuffix, "Process panicked: "+obs.Panic+" (in production the read loop recovers it: the request is dropped with an error log)", wit())
 			continue
 		}
 		if exp.NotCompared != "" {
@@ -774,6 +873,10 @@ func TestC26(t *testing.T) {
 			continue
 		}
 		nCompared++
+		if exp.MaxUTF >= 32768 {
+			nLongCompared++
+			nLongEffects += len(obs.Responses) + len(obs.Forwards) + len(obs.Connects) + len(obs.Kicks) + len(obs.PlayerMessages) + len(obs.Broadcasts)
+		}
 		// (2) a message on another channel is not ours and has no effect
 		if !exp.Handled {
 			if obs.Handled || len(clauses(w, sub, ref.Outcome{}, obs)) > 0 {
@@ -782,7 +885,7 @@ func TestC26(t *testing.T) {
 			continue
 		}
 		if !obs.Handled && exp.Sub != "" {
-			r.Violation("bungee:"+sub+":not-reported-as-handled", "Process returned false for a readable BungeeCord request (it would be relayed to the client)", wit())
+			r.Violation("bungee:"+sub+":not-reported-as-handled"+sigSuffix, "Process returned false for a readable BungeeCord request (it would be relayed to the client)", wit())
 		}
 		// (3) the observed outcome must be one of the acceptable ones
 		best := -1
@@ -802,7 +905,7 @@ func TestC26(t *testing.T) {
 			altUsed[fmt.Sprintf("%s %s: alternative %d of %d", sub, pc, best+1, len(exp.Outcomes))]++
 		}
 		for _, c := range bestClauses {
-			r.Violation("bungee:"+sub+":"+c,
+			r.Violation("bungee:"+sub+":"+c+sigSuffix,
 				fmt.Sprintf("sub-channel %s (%s): observed outcome is none of the %d acceptable ones; closest differs by %v", sub, exp.Class, len(exp.Outcomes), bestClauses), wit())
 		}
 		if r.WantSample() {
@@ -816,6 +919,15 @@ func TestC26(t *testing.T) {
 	r.Set("not_compared", notCompared)
 	r.Set("matched_via_alternative_outcome", altUsed)
 	r.Set("requests_compared", nCompared)
+	r.Set("string_length_classes", map[string]any{
+		"requests_with_a_string_field_of_32768_bytes_or_more_per_subchannel": longPerSub,
+		"requests_with_a_string_field_of_30000_to_32767_bytes_per_subchannel": nearPerSub,
+		"requests_whose_longest_string_has_exactly_this_length":              boundarySeen,
+		"of_the_32768_or_more_class_compared_with_the_reference":             nLongCompared,
+		"effects_observed_for_those (responses, forwards, connects, kicks, messages, broadcasts)": nLongEffects,
+		"states_with_a_server_or_player_name_of_about_32_KiB_or_more":        nLongState,
+		"requests_with_NUL_or_supplementary_characters (survival only)":      nNonPortable,
+	})
 	r.Count("responses_observed", nResp)
 	r.Count("forwards_observed", nFwd)
 	r.Count("connects_observed", nConn)
@@ -827,6 +939,7 @@ func TestC26(t *testing.T) {
 	// ---- layer 2: the real adapter inside a running proxy ------------------------------------
 	runAdapterLayer(r)
 	runAdapterSwitchLayer(r)
+	runAdapterCarrierLayer(r)
 }
 
 // gateFrames keeps the Gate frames of a stack (function lines only).
